@@ -510,7 +510,7 @@ func c07Check(a *artefacts, tier string, seed uint64, replay string) int {
 func c07Prio(c config) int {
 	s := c.String()
 	p := 0
-	for _, k := range []string{"with_reflection", "with_field_mask", "template=slim", "keep_unknown_fields", "gen_type_meta"} {
+	for _, k := range []string{"with_reflection", "with_field_mask", "template=slim", "keep_unknown_fields", "gen_type_meta", "no_fmt"} {
 		if strings.Contains(s, k) && !strings.Contains(s, k+"=false") {
 			p++
 		}
